@@ -2,7 +2,7 @@
 norm_vector(.) or np.zeros(3) (engine: sa/engines/signs.py); touching contacts return the zero vector."""
 import ast
 
-from ..core.astutil import u, call_name, calls, iter_stmts, const, ncmp
+from ..core.astutil import u, call_name, calls, iter_stmts, const, ncmp, resolved
 from ..core.index import AnalysisError
 from ..engines.signs import Signs, NONNEG, UNIT0, ZERO
 
@@ -55,7 +55,7 @@ def r_unitdir(idx, rep, rule="R-UNITDIR"):
             and st.value.func.attr == "dot" and u(st.targets[0]) in (ps[1], ps[2])]
     ok = len(dots) == 2 and len({u(d.value.func.value) for d in dots}) == 1 and {u(d.value.args[0]) for d in dots} == {ps[1], ps[2]} and all(u(d.targets[0]) == u(d.value.args[0]) for d in dots)
     rets = [st for st in iter_stmts(c.node.body) if isinstance(st, ast.Return)]
-    ok = ok and bool(rets) and u(rets[-1].value).replace(" ", "") in ("0.5*(%s+%s)" % (ps[1], ps[2]), "(%s+%s)/2" % (ps[1], ps[2]), "(%s+%s)*0.5" % (ps[1], ps[2]))
+    ok = ok and bool(rets) and u(resolved(c.node, rets[-1].value)).replace(" ", "") in ("0.5*(%s+%s)" % (ps[1], ps[2]), "(%s+%s)/2" % (ps[1], ps[2]), "(%s+%s)*0.5" % (ps[1], ps[2]))
     rep.check(ok, rule, c.key + "|same weights on both pre-image arrays, midpoint", c.where,
               "the contact position must be 0.5 * (w . v1 + w . v2) with one weight vector w")
 
